@@ -224,6 +224,10 @@ def replay(pid, path):
     if "ops" not in c:
         print(json.dumps(c, indent=1))
         return 1
+    if c["ops"] and c["ops"][0]["op"] == "inspect":
+        ins = core.inspect_def(c["ops"][0]["def"], c["ops"][0].get("lang", "yaql"))
+        print("inspection result:", json.dumps(ins)[:500])
+        return 1 if not ins else 0
     imp = core.Impl()
     reps = []
     for o in c["ops"]:
